@@ -78,6 +78,14 @@ def step(flmax, nblocks, nmax):
         k2 = (pos + 1013) // 1014
         fk2 = fetched(FL, k2, nblocks)
         req_eq(u.buffer, P.cut(end, fk2) if not same_int(end, fk2) else b'', 'buffer is not payload[d+n:fetched]', key='C05/state', replay=rp)
+        # whatever else the reader remembers between calls must not matter either: the next read continues the payload stream
+        core.FUEL.set(nblocks + 4)
+        try:
+            nxt = u.read(7)
+        except core.OutOfFuel:
+            fail('read does not terminate', key='C05/hang', replay=rp)
+        end2 = s_min(end + 7, total)
+        req_eq(nxt, P.cut(end, end2) if not same_int(end, end2) else b'', 'the read after read(n) did not continue the payload stream', key='C05/read', replay=rp)
         return {'sample': {'FL': ev(FL), 'k': ev(k), 'd': ev(d), 'n': ev(n), 'returned': ev(rlen(out))}, 'replay': rp()}
     return h
 
